@@ -208,6 +208,14 @@ class Result:
         return 0
 
 
+class HarnessCrash(RuntimeError):
+    """the harness process died while generating / executing ops against the real code (a panic outside the
+    per-op recover, or a crash of a goroutine of the code under test)"""
+    def __init__(self, msg, ops_path):
+        RuntimeError.__init__(self, msg)
+        self.ops_path = ops_path
+
+
 def run_correspondence(cfg, tier, seed, replay_ops=None, harness_args=None):
     """run harness (gen or exec) and driver; returns (lines, diffs) where lines = [(op, impl)],
     diffs = [(idx, op, impl, model, verdict)]."""
@@ -233,7 +241,7 @@ def run_correspondence(cfg, tier, seed, replay_ops=None, harness_args=None):
                 p = subprocess.run([BIN + "/h_" + hname, "exec"], input=replay_ops, text=True, stdout=fh,
                                    stderr=subprocess.PIPE, env=env, timeout=cfg.get("harness_timeout", 3000))
             if p.returncode != 0:
-                raise RuntimeError("harness failed (rc=%d): %s" % (p.returncode, p.stderr[-2000:]))
+                raise HarnessCrash("harness failed (rc=%d): %s" % (p.returncode, p.stderr[-2000:]), ops_path)
         drv = os.path.join(LEAN, ".lake/build/bin", cfg.get("driver", "drv_" + cfg["prop"].lower()))
         with open(ops_path) as fin:
             p = subprocess.run([drv], stdin=fin, stdout=subprocess.PIPE, stderr=subprocess.PIPE, text=True,
@@ -354,7 +362,22 @@ def standard_check(cfg, tier, seed, replay=None):
         R.violations.append(("unproved", path, "no-failing-input-found"))
         R.coverage.update(evaluations=0, distinct_nontrivial=0, rule="no correspondence run: driver unavailable", samples=[])
         return R.finish()
-    lines, diffs = run_correspondence(cfg, tier, seed, replay_ops)
+    try:
+        lines, diffs = run_correspondence(cfg, tier, seed, replay_ops)
+    except HarnessCrash as e:
+        # the correspondence could not be completed on this tree: the property is no longer shown to hold.
+        # Reported as a violation without a failing input; the replay names the crash and the ops executed so far.
+        done = []
+        try:
+            done = [l.split("\t")[0] for l in open(e.ops_path).read().splitlines()][-50:]
+        except OSError:
+            pass
+        path = R.write_replay("harness-crash", {"proof_problems": proof_problems, "crash": str(e)[:3000],
+                                                "ops": done,
+                                                "note": "the harness process died while driving the real code; last ops executed are listed"})
+        R.violations.append(("harness-crash", path, "no-failing-input-found"))
+        R.coverage.update(evaluations=len(done), distinct_nontrivial=0, rule="correspondence aborted: harness crashed", samples=[])
+        return R.finish()
     # optional translator-validation drivers: the REGENERATED definitions executed on the same ops
     for xd in cfg.get("gen_drivers", []):
         with Lock():
